@@ -1,9 +1,10 @@
 PROP = {
     "id": "C04",
     "theorem_modules": ["Verif.Properties.C04"],
-    "min_theorems": 6,
+    "min_theorems": 7,
     "required_theorems": [
         "Verif.Properties.C04.invalidated",
+        "Verif.Properties.C04.derived_invalidated",
         "Verif.Properties.C04.invalidated_dead",
         "Verif.Properties.C04.stable",
         "Verif.Properties.C04.stable_copy",
@@ -20,9 +21,9 @@ PROP = {
                  "the referenced cell; every move / destroy bumps the generations of the moved resource and of every "
                  "resource nested in it) + correspondence stream on the real parser's AST in both engines + "
                  "model-independent specification computed by the generator",
-    "level_text": "Lean theorems for every state, value and generation: after the transfer (any move) of a resource, every reference taken before to its cell or to a resource-kinded cell nested in it through resource-kinded cells fails on its next use with invalidated-reference (invalidated); a reference to a dead (destroyed) cell fails (invalidated_dead); the move leaves the validity of every reference to a cell outside the moved value exactly as it was, and a deep copy of a non-resource value invalidates nothing (stable, stable_copy); a storage reference yields the value currently at its path iff that value has the borrow type, else the dereference error (storage_ref). Tied to /repo by the stream `refinv`: resource trees nested through an optional field, an array and a dictionary (depth <= 3); references to the root and to nested members taken directly (&x, &x.inner, &x.items[k], &x.m[k], two levels deep) and through other references, laundered through functions so that the checker cannot track them; then moves of the root (declaration, call + return, swap, save + load), children taken out by method calls (also through a reference to the child), swapped, pushed back, kept or destroyed, destroy of the root, non-moving mutations; then one use of every reference the specification says is valid (logging the referent's tag) and one use of a stale one; storage references over unchanged / replaced / emptied / re-typed paths; interpreter and VM; the model evaluator must produce the same observation. Direct oracle independent of the model: the generator's ownership simulation says which uses succeed with which tag and whether the last fails with invalidated-reference (classes stale-reference-usable, valid-reference-unusable).",
-    "level_note": 'proof (fragment L2 heap) + CC, partial: `invalidated` is stated for one transfer; that every move form of the evaluator performs `transfer` on the moved value is by construction of the evaluator and validated by the stream, not a separate theorem; invalidation by `destroy` is proved for the dead cell (invalidated_dead), the marking of nested cells by destroyVal is validated by the stream only. References to non-resource values nested in a moved resource are not invalidated by the Go code (InvalidateReferencedResources skips them): genuine violation of the property, recorded as known finding nested-non-resource-reference-not-invalidated (generator form ref-nested-struct, witness theorem nested_struct_reference_witness). References obtained through capabilities and forEachAttachment are outside the fragment.',
-    "assumptions": ["programs of the fragment (DESIGN 4.1 L0-L2; no attachments, capabilities, interfaces)",
+    "level_text": "Lean theorems for every state, value and generation: after the transfer (any move) of a resource, every reference taken before to its cell or to a resource-kinded cell nested in it through resource-kinded cells fails on its next use with invalidated-reference (invalidated); a reference read back through another reference from a field / element / entry (a derived reference value) keeps the generation the stored reference recorded, whenever it is derived, and fails likewise (derived_invalidated); a reference to a dead (destroyed) cell fails (invalidated_dead); the move leaves the validity of every reference to a cell outside the moved value exactly as it was, and a deep copy of a non-resource value invalidates nothing (stable, stable_copy); a storage reference yields the value currently at its path iff that value has the borrow type, else the dereference error (storage_ref). Tied to /repo by the stream `refinv`: resource trees nested through an optional field, an array and a dictionary (depth <= 3); references to the root and to nested members taken directly (&x, &x.inner, &x.items[k], &x.m[k], two levels deep) and through other references, laundered through functions so that the checker cannot track them; then moves of the root (declaration, call + return, swap, save + load), children taken out by method calls (also through a reference to the child), swapped, pushed back, kept or destroyed, destroy of the root, non-moving mutations; then one use of every reference the specification says is valid (logging the referent's tag) and one use of a stale one; storage references over unchanged / replaced / emptied / re-typed paths; references kept in struct fields, arrays, dictionaries, optional fields, nested structs and a resource's field and read back through a reference to the holder (member / index access, a function, a for loop; also derived only after the move) to resources nested one or two levels inside a resource that is then moved on the stack (variable, call, array, field), re-stored or destroyed, or whose middle / leaf resource is taken out; resources with attachments (one or two, on a nested resource, an attachment owning a resource; base in a variable, a field, an array) with references to the attachments (`x[A]!`, through a reference to the base, `self` / `base` handed out by an attachment method, forEachAttachment), to the base and to the resource an attachment owns, then the same moves, attaching a further attachment, removing the attachment, non-moving writes that the valid references must observe (oracle only: attachments are outside the model); interpreter and VM; the model evaluator must produce the same observation. Direct oracle independent of the model: the generator's ownership simulation says which uses succeed with which tag and whether the last fails with invalidated-reference (classes stale-reference-usable, valid-reference-unusable).",
+    "level_note": 'proof (fragment L2 heap) + CC, partial: `invalidated` is stated for one transfer; that every move form of the evaluator performs `transfer` on the moved value is by construction of the evaluator and validated by the stream, not a separate theorem; invalidation by `destroy` is proved for the dead cell (invalidated_dead), the marking of nested cells by destroyVal is validated by the stream only. References to non-resource values nested in a moved resource are not invalidated by the Go code (InvalidateReferencedResources skips them): genuine violation of the property, recorded as known finding nested-non-resource-reference-not-invalidated (generator form ref-nested-struct, witness theorem nested_struct_reference_witness). Attachments and `for` loops over references are outside the fragment of the model: those programs are judged by the specification computed by the generator and engines-agree only (tag oracle-only). References obtained through capabilities are not generated. Observed, not a violation of this property: a resource that holds an invalidated reference in a field can itself be neither moved nor destroyed (the walk over its fields fails with the invalidated-reference error).',
+    "assumptions": ["model: programs of the fragment (DESIGN 4.1 L0-L2; no attachments, capabilities, interfaces); attachment programs are compared with the generator's specification only",
                     "the traversal fuel of the model (heap size + 16) covers the nesting of the moved value"],
     "trusted_base": ["hand-written evaluator Verif.Model.Lang2.Eval validated by stream refinv",
                      "bridge harness/internal/sx2 (AST + elaboration -> S-expression)", "driver Drv/Lang2.lean",
